@@ -11,6 +11,10 @@ ASSUMPTIONS = ["bytearray cells are integers 0..255 (enforced on every store, as
 
 
 def jobs(tier):
+    return [dict(j, second_solver=(6 if tier == "thorough" and j["args"][0] <= 12 else 0)) for j in _jobs(tier)]
+
+
+def _jobs(tier):
     lens = list(range(0, 25)) if tier == "quick" else list(range(0, 129))
     js = []
     for L in lens:
